@@ -67,7 +67,7 @@ class ExecutorBroker(ExecutorBase):
                 futures. Futures that are completed or running will not be
                 cancelled.
         """
-        if cancel_futures:
+        if cancel_futures and self._future_queue is not None:
             cancel_items_in_queue(que=self._future_queue)
         if self._process is not None:
             for _ in range(len(self._process)):
